@@ -43,6 +43,7 @@ type Extractor struct {
 	resolver        func(core.IndirectRef) (core.Object, error) // Reference resolver
 	xobjectDepth    int                                         // Current XObject nesting depth
 	maxXObjectDepth int                                         // Maximum nesting depth (prevents infinite recursion)
+	formStackFloor  int                                         // Inside a form: the q/Q stack depth the form started with
 }
 
 // NewExtractor creates a new text extractor with initialized graphics state.
@@ -202,6 +203,11 @@ func (e *Extractor) processOperation(op contentstream.Operation) error {
 	case "q":
 		e.gs.Save()
 	case "Q":
+		// A form XObject is painted as if between q and Q: a Q without a
+		// matching q inside the form must not pop a state its caller saved
+		if e.xobjectDepth > 0 && e.gs.StackDepth() <= e.formStackFloor {
+			return nil
+		}
 		return e.gs.Restore()
 	case "cm":
 		if len(op.Operands) == 6 {
@@ -455,6 +461,8 @@ func (e *Extractor) invokeXObject(name string) error {
 	// Save current state
 	e.gs.Save()
 	e.xobjectDepth++
+	oldFloor := e.formStackFloor
+	e.formStackFloor = e.gs.StackDepth()
 
 	// Save current resources and set XObject's resources (or merged)
 	oldResources := e.resources
@@ -483,6 +491,7 @@ func (e *Extractor) invokeXObject(name string) error {
 		// Restore state and return error
 		e.resources = oldResources
 		e.xobjectDepth--
+		e.formStackFloor = oldFloor
 		e.gs.Restore()
 		return fmt.Errorf("failed to parse XObject content: %w", err)
 	}
@@ -494,7 +503,12 @@ func (e *Extractor) invokeXObject(name string) error {
 		}
 	}
 
-	// Restore state
+	// Restore state: first whatever the form saved and did not restore
+	// itself, then the state saved before the form was entered
+	for e.gs.StackDepth() > e.formStackFloor {
+		e.gs.Restore()
+	}
+	e.formStackFloor = oldFloor
 	e.resources = oldResources
 	e.xobjectDepth--
 	e.gs.Restore()
